@@ -39,6 +39,11 @@ CHECKS = {
          "For each program a first codegen pass collects every name the generator invents; user input names, output keys and Named/PrefixNamed tags are then drawn from those names, one-edit neighbours and near-reserved names (7 scenarios incl. reserved-pattern names, output key = input name, naming tags on wrapped data, two distinct same-named inputs). The kernel's name spaces must be disjoint, placeholders and outputs must appear under exactly their names, generated names must stay in _pt_ or derive from a naming tag, NameClashError must be raised for distinct same-named inputs, bound data must be the wrapped objects, and values must equal the default-named baseline/NumPy.",
          "As C01 for execution. For user names that collide with each other or lie in reserved regions either an error or correct values is accepted.",
          "DESIGN.md §3 C15"),
+ "C11": ("exploration",
+         "runtime access monitor + sanitizers: kernel-level interpreter emitting a per-axis bounds event for every in-mask subscript at every iteration point, AddressSanitizer/UBSan on the compiled kernel with exact-size heap buffers, canary words in the C runner; symbolic-shape kernels executed at every size valuation 0..6",
+         "Every generated kernel is interpreted instruction by instruction over its full iteration box with validity masks (accesses under conditionals are only required to be in bounds where evaluated); any non-data-dependent subscript outside [0, extent) on any axis, any read of an unwritten element, any sanitizer report and any canary corruption is a violation. One compiled kernel per symbolic program is run at all 7^d size valuations (d<=2 complete, d=3 sampled incl. all corners).",
+         "Decides the property for all loop indices at each EXECUTED size only (0..6): the statement's 'all sizes, symbolically' is out of reach of runtime monitoring (DESIGN.md §3 C11 / §8). loopy's lowering of subscripts to flat offsets is covered by ASan/canaries, not by the interpreter.",
+         "DESIGN.md §3 C11"),
 }
 
 NOT_YET = {
